@@ -38,6 +38,7 @@ type Cfg struct {
 	P2     int    `json:"p2"`
 	Others []int  `json:"others"` // parameters of the initial never-blocking rules of the same module and resource
 	RPos   int    `json:"r_pos"`  // position of R in the initial list
+	RDup   bool   `json:"r_dup,omitempty"` // the initial list holds R twice (both copies are unchanged rules of every reload)
 }
 
 type P struct{}
@@ -49,7 +50,7 @@ func (P) Engine() string { return "E1" }
 
 func (P) Describe() harness.Description {
 	return harness.Description{
-		MustHit: []string{"reload_compound", "reload_whole_set", "reload_per_resource", "reload_reorders", "reload_modifies_other_with_same_stat_params", "trace_has_block_and_admit", "modified_rule_keeps_statistics"},
+		MustHit: []string{"unchanged_rule_listed_twice", "reload_compound", "reload_whole_set", "reload_per_resource", "reload_reorders", "reload_modifies_other_with_same_stat_params", "trace_has_block_and_admit", "modified_rule_keeps_statistics"},
 		Level:   "exploration",
 		Rule: "case = (kind of the unchanged rule R: flow throttling / warm-up / reject with a private window, circuit breaker, hotspot QPS, hotspot concurrency; 0-2 never-blocking rules of the same module on the same resource; 20-80 traffic ops (requests with arguments, holds, completions with errors, ticks) with 1-4 reloads inserted, each a compound of 1-3 edits: each keeps R field-for-field identical (fresh object) and adds / removes / modifies (also with unchanged statistic parameters) / reorders the others, or duplicates R where that is behaviour-neutral; whole-set and per-resource paths). " +
 			"Run A executes the history without the reloads, run B with them, after a full reset of process-global state; the decision traces (admit / block type / requested wait) on R's resource must be identical. A second oracle modifies R itself keeping its statistic parameters (private-window flow rule: threshold change) and requires the decisions to equal a model whose window keeps the pre-reload counts. " +
@@ -68,10 +69,15 @@ func (P) Gen(rng *sim.Rng, tier string) *harness.Case {
 		cfg.Others = append(cfg.Others, rng.Range(1, 5))
 	}
 	cfg.RPos = rng.Intn(len(cfg.Others) + 1)
+	cfg.RDup = rng.Chance(0.2)
 	var ops []harness.Op
 	started := 0
 	nReload := rng.Range(1, 4)
 	total := rng.Range(20, 80)
+	if cfg.Kind == kWarmUp {
+		// a warm-up rule shows its state only under sustained demand: longer, denser histories
+		total = rng.Range(60, 200)
+	}
 	reloadAt := map[int]bool{}
 	for i := 0; i < nReload; i++ {
 		reloadAt[rng.Range(3, total-1)] = true
@@ -94,7 +100,11 @@ func (P) Gen(rng *sim.Rng, tier string) *harness.Case {
 			ops = append(ops, harness.Op{K: "reload", N: n, M: m, F: rng.Chance(0.4)})
 			continue
 		}
-		switch rng.Weighted([]int{45, 20, 35}) {
+		w := []int{45, 20, 35}
+		if cfg.Kind == kWarmUp {
+			w = []int{70, 5, 25}
+		}
+		switch rng.Weighted(w) {
 		case 0:
 			ops = append(ops, harness.Op{K: "req", E: rng.Intn(3), F: rng.Chance(0.4)}) // E: argument value, F: hold open
 			started++
@@ -103,7 +113,11 @@ func (P) Gen(rng *sim.Rng, tier string) *harness.Case {
 				ops = append(ops, harness.Op{K: "done", E: rng.Intn(started), F: rng.Chance(0.6)})
 			}
 		default:
-			ops = append(ops, harness.Op{K: "tick", N: []uint64{0, 1, 50, 100, 200, 333, 500, 1000, 1500, 3000}[rng.Intn(10)]})
+			if cfg.Kind == kWarmUp {
+				ops = append(ops, harness.Op{K: "tick", N: []uint64{0, 1, 50, 100, 200, 250, 333, 500, 1000, 3000}[rng.Intn(10)]})
+			} else {
+				ops = append(ops, harness.Op{K: "tick", N: []uint64{0, 1, 50, 100, 200, 333, 500, 1000, 1500, 3000}[rng.Intn(10)]})
+			}
 		}
 	}
 	return &harness.Case{Cfg: harness.MustJSON(cfg), Callers: [][]harness.Op{ops}}
@@ -205,6 +219,9 @@ func load(o *harness.Outcome, step int, cfg *Cfg, l *lst, perRes bool) {
 			if l.rpos >= len(l.others) {
 				rules = append(rules, cbR(cfg))
 			}
+			if l.dup {
+				rules = append(rules, cbR(cfg))
+			}
 			if perRes {
 				_, _ = cb.LoadRulesOfResource(res, rules)
 			} else {
@@ -288,7 +305,10 @@ func run(c *harness.Case, cfg *Cfg, o *harness.Outcome, withReloads bool) (trace
 	clk := env.Clock
 	var lastSleep time.Duration
 	clk.OnSleep = func(d time.Duration) { lastSleep += d }
-	l := &lst{others: append([]int{}, cfg.Others...), rpos: cfg.RPos}
+	l := &lst{others: append([]int{}, cfg.Others...), rpos: cfg.RPos, dup: cfg.RDup}
+	if cfg.RDup {
+		o.Probe("unchanged_rule_listed_twice")
+	}
 	if l.rpos > len(l.others) {
 		l.rpos = len(l.others)
 	}
